@@ -1449,6 +1449,30 @@ def gen(rng, tier):
     yield from gen_heff(rng, tier)   # x19 extension (drawn after everything else: the earlier stream is unchanged)
 
 
+
+# ---- known finding D33: the breakdown thresholds are absolute (100*n*eps in expm_krylov, 1e-12 in expm_arnoldi), not relative to ||A||
+KEY_D33 = "C19:absolute-breakdown-threshold"
+
+
+def run_tinyscale(inp):
+    """A = scale * sigma_x, v = e_0, dt = (pi/2)/scale: spectral width * |dt| = pi whatever the scale; exact result (0, -i)"""
+    out = []
+    for scale in inp.get("scales", [1.0, 1e-6, 1e-14]):
+        a = scale * np.array([[0, 1], [1, 0]], dtype=complex)
+        v = np.array([1, 0], dtype=complex)
+        dt = (np.pi / 2) / scale
+        exact = np.array([0, -1j])
+        for name, fn in (("krylov", mexp.expm_krylov), ("arnoldi", mexp.expm_arnoldi)):
+            y = fn(lambda x: a @ x, v, dt, 2)
+            err = float(np.linalg.norm(np.asarray(y) - exact))
+            ok = err <= 1e-9
+            case = {"req": None, "impl": None, "kind": "tinyscale-" + name, "sig": f"tinyscale:{name}:{scale:g}",
+                    "oracle": {"ok": ok, "detail": f"expm_{name}: A = {scale:g}*sigma_x, dt = (pi/2)/{scale:g} (width*|dt| = pi): error {err:.3e}"}}
+            if not ok and scale <= 1e-12:
+                case["key"] = KEY_D33
+            out.append(case)
+    return out
+
 def run(inp):
     try:
         return run_kind(inp)
@@ -1483,6 +1507,8 @@ def run_kind(inp):
         return HEFF_KINDS[k](inp)
     if k in XP19_KINDS:
         return XP19_KINDS[k](inp)
+    if k == "tinyscale":
+        return run_tinyscale(inp)
     raise ValueError(k)
 
 
